@@ -262,6 +262,43 @@ func c14Case(r *core.Run, f ioFmt, d ref.DT, shape []int, lay, vs string, mbits 
 		if msg := metaInvariant(t2); msg != "" {
 			return fail("unreadable", "inv", "%s: decoded tensor violates the metadata invariant: %s", what, msg)
 		}
+		if msg := orderInvariant(t2); msg != "" {
+			return fail("unreadable", "ord", "%s: decoded tensor violates the metadata invariant: %s", what, msg)
+		}
+		// the decoded tensor as a starting state: whole-tensor readers that pick their traversal from the flags must see
+		// the same elements (row-major results only: column-major traversal is C16's subject)
+		if n >= 2 && len(shape) >= 1 && !t2.DataOrder().IsColMajor() {
+			var flat []interface{}
+			o := call(func() error {
+				c := t2.Clone().(*tensor.Dense)
+				if err := c.Reshape(n); err != nil {
+					return err
+				}
+				flat, err = atlas.Logical(c)
+				return err
+			})
+			r.Op(1)
+			if o.Class == "ok" {
+				for i := range flat {
+					if !(mask != nil && mask[i] && !f.mask) && !ref.Same(flat[i], vals[i]) && !(f.name == "csv" && ref.Close(flat[i], vals[i])) {
+						return fail("wrong-value", fmt.Sprintf("flat%d", i), "%s: flattening a clone of the decoded tensor reads %s, expected %s", what, ref.FmtEls(flat), ref.FmtEls(vals))
+					}
+				}
+			}
+			dst := tensor.New(tensor.WithShape(t2.Shape().Clone()...), tensor.Of(d.D))
+			o = call(func() error { return tensor.Copy(dst, t2) })
+			r.Op(1)
+			if o.Class == "ok" {
+				cp, err := atlas.Logical(dst)
+				if err == nil {
+					for i := range cp {
+						if !(mask != nil && mask[i] && !f.mask) && !ref.Same(cp[i], vals[i]) && !(f.name == "csv" && ref.Close(cp[i], vals[i])) {
+							return fail("wrong-value", fmt.Sprintf("copy%d", i), "%s: Copy of the decoded tensor into a fresh tensor reads %s, expected %s", what, ref.FmtEls(cp), ref.FmtEls(vals))
+						}
+					}
+				}
+			}
+		}
 		return nil
 	})
 }
